@@ -379,6 +379,8 @@ let run_case (line : string) : string =
   | "DEC0" -> outcome print_mres (M.m_decode M.default_opts (bytes_of_hex (arg 1)))
   | "DECR" ->
     outcome (fun x -> print_mres x ^ " viol=0") (M.m_decode (opts_of (arg 1)) (bytes_of_hex (arg 2)))
+  | "DECC" -> "cost=" ^ dec_of_n (M.m_decode_cost (opts_of (arg 1)) (bytes_of_hex (arg 2)))
+  | "AVPSC" -> "cost=" ^ dec_of_n (M.m_avps_cost (bytes_of_hex (arg 1)))
   | "DECSEQ" ->
     let o = opts_of (arg 1) in
     let rec go b k acc =
